@@ -23,7 +23,8 @@ RECURSIVE SubstSeq(_, _, _)
 RECURSIVE SubstDo(_, _, _, _, _)
 RECURSIVE SubstRec(_, _, _)
 ValToExpr(v) ==
-  CASE v.t = "num"  -> IF v.n < 0 THEN EBin("sub", N(0), N(-v.n)) ELSE N(v.n)
+  CASE v.t = "num"  -> IF v.k = "pinf" THEN EId("inf") ELSE IF v.k = "ninf" THEN EBin("sub", N(0), EId("inf"))
+                       ELSE IF v.n < 0 THEN EBin("sub", N(0), N(-v.n)) ELSE N(v.n)
     [] v.t = "list" -> EList([i \in 1..Len(v.xs) |-> ValToExpr(v.xs[i])])
     [] v.t = "bool" -> EBin("eq", N(0), IF v.b THEN N(0) ELSE N(1))
     [] v.t = "fn"   -> ELam(v.ps, Subst(v.b, v.scope, ParamNames(v.ps)))
@@ -84,6 +85,10 @@ Defs == <<
   [name |-> "optional-rest",     setup |-> <<EAsg("g", N(10)), EAsg("f", ELam(<<Req("x"), Prm("y", "opt"), Prm("z", "rest")>>, EList(<<X, Y, EId("z"), G>>)))>>],
   [name |-> "conditional",       setup |-> <<EAsg("g", N(1)), EAsg("f", Lam1(EIf(EBin("lt", X, G), Plus(G, G), EBin("sub", X, G))))>>],
   [name |-> "late-bound",        setup |-> <<EAsg("f", Lam1(Plus(X, G)))>>],
+  \* `inf` always denotes the constant: a parameter or a block-local of that name does not hide it, so an emitted infinity
+  \* keeps its meaning under such a parameter
+  [name |-> "captured-infinity-under-inf-param", setup |-> <<EAsg("g", EId("inf")), EAsg("f", ELam(<<Req("inf"), Prm("y", "opt")>>, EList(<<EBin("lt", N(1), G), EBin("lt", EId("inf"), G), Y>>)))>>],
+  [name |-> "captured-infinity-under-inf-local", setup |-> <<EAsg("g", EBin("sub", N(0), EId("inf"))), EAsg("f", Lam1(EDo(<<EAsg("h", X)>>, EList(<<EBin("lt", G, EId("h")), EBin("eq", G, G)>>))))>>],
   [name |-> "self-name-captured", setup |-> <<EAsg("f", EDo(<<EAsg("g", N(5)), EAsg("g", Lam1(Plus(G, X)))>>, G))>>],
   [name |-> "compose-named-like-a-capture", setup |-> <<EAsg("h", ELam(<<Req("f"), Req("g")>>, Lam1(ECall(EId("f"), <<ECall(G, <<X>>)>>)))), EAsg("k", Lam1(Plus(X, N(1)))), EAsg("f", ECall(EId("h"), <<EId("k"), EId("k")>>))>>],
   [name |-> "closure-as-operand", setup |-> <<EAsg("g", N(10)), EAsg("h", Lam1(Plus(X, G))), EAsg("f", Lam1(EIf(EBin("ne", EId("h"), ELit(Null)), ECall(EId("h"), <<X>>), X)))>>],
